@@ -1,2 +1,3 @@
+@inplace.setter
 def spec(self, value):
     self.__inplace = bool(value)
